@@ -143,7 +143,20 @@ HASH_ITER_RE = re.compile(
 LOGGING_RE = re.compile(r"^(log::|std::fmt::|std::io::_eprint|std::io::_print|<.* as std::fmt::(Display|Debug)>::fmt)")
 
 
+# std::fs is default-deny: anything in the module that is not a known read / query / accessor is treated as mutating,
+# so that a *new* API (set_modified, chown, create_new, ...) is classified without a table update
+FS_SAFE_RE = re.compile(
+    r"^std::fs::(read|read_to_string|read_dir|read_link|metadata|symlink_metadata|canonicalize|exists|try_exists)$|"
+    r"^std::fs::File::(open|metadata|try_clone|lock_shared|unlock|try_lock_shared)$|"
+    r"^std::fs::(Metadata|DirEntry|ReadDir|FileType|Permissions|FileTimes)::|^<std::fs::(ReadDir|DirEntry|Metadata|FileType|File) as |"
+    r"^std::fs::OpenOptions::(new|read|write|create|truncate|append|create_new|open)$|^std::fs::File::options$")
+
+
 def classify_fs(name):
+    if (name.startswith("std::fs::") or name.startswith("std::os::unix::fs::")) and name not in FS_MUTATING and \
+            name not in FS_READ_BYTES and name not in FS_READ_UTF8 and name not in FS_READ_OPEN and name not in FS_QUERY and \
+            not FS_SAFE_RE.search(name) and not HANDLE_WRITE_RE.match(name):
+        return "OTHER_MUTATING"
     if name in FS_CREATE_TRUNC:
         return "CREATE_TRUNC"
     if name in FS_REMOVE:
@@ -164,7 +177,7 @@ def classify_fs(name):
 
 
 def is_fs_mutating(name):
-    return name in FS_MUTATING
+    return name in FS_MUTATING or classify_fs(name) == "OTHER_MUTATING"
 
 
 def is_process(name):
